@@ -2,6 +2,9 @@ package spv
 
 import (
 	"math"
+	"os"
+	"strconv"
+	"runtime/debug"
 	"sort"
 	"strings"
 	"testing"
@@ -230,6 +233,9 @@ func TestRobustAgainstCorruptModules(t *testing.T) {
 	if testing.Short() {
 		iters = 500
 	}
+	if n, err := strconv.Atoi(os.Getenv("SPV_FUZZ_ITERS")); err == nil && n > 0 {
+		iters = n
+	}
 	for it := 0; it < iters; it++ {
 		src := bins[it%len(bins)]
 		b := append([]byte(nil), src...)
@@ -252,7 +258,7 @@ func TestRobustAgainstCorruptModules(t *testing.T) {
 		func() {
 			defer func() {
 				if r := recover(); r != nil {
-					t.Fatalf("iteration %d: panic %v", it, r)
+					t.Fatalf("iteration %d: panic %v\n%s", it, r, debug.Stack())
 				}
 			}()
 			m, err := Parse(b)
